@@ -22,7 +22,7 @@ pub fn def() -> PropDef {
         rule: "case = one sqrt input: Fq (squares of arbitrary elements, square*2 non-residues, 0, 1, -1, -2, boundary values) or Fq2 (squares, square * fixed non-square, zero imaginary part with the real part a residue / non-residue and below / above q/2, purely imaginary, boundary components), or a compressed decode of an x-coordinate (uniform x for G1, x of k*P2 for G2, both prefixes); oracle = Euler criterion (Fq), Euler-in-Fq2 and norm criterion (Fq2), soundness by squaring in the library and in the reference; non-trivial = x not in {0,1} and not a uniform square; distinct by input",
         required: crate::runner::req(&[
             "fq:square", "fq:nonresidue", "fq:const", "fq2:square", "fq2:nonsquare", "fq2:real-residue-low", "fq2:real-residue-high", "fq2:real-nonresidue-low",
-            "fq2:real-nonresidue-high", "fq2:imag-only", "g1-compressed:residue", "g1-compressed:nonresidue", "g2-compressed",
+            "fq2:real-nonresidue-high", "fq2:imag-only", "fq2:square-derived-root", "g1-compressed:residue", "g1-compressed:nonresidue", "g2-compressed",
         ]),
         enumerate: None,
         enumerate_note: "",
@@ -130,7 +130,37 @@ pub fn check(g: &[u8], ctx: &Ctx) -> Result<Info, Failure> {
         }
         1 => {
             // ---- Fq2
-            let (x, cls): ((BigUint, BigUint), String) = match s.weighted(&[4, 3, 8, 2, 3]) {
+            let (x, cls): ((BigUint, BigUint), String) = match s.weighted(&[4, 3, 8, 2, 3, 4]) {
+                5 => {
+                    // squares whose root (y + z u) is chosen so that an INTERMEDIATE of the usual sqrt algorithm is a boundary
+                    // value: with a = y^2 - 2z^2 and w = +-(y^2 + 2z^2) the sums a +- w are 2y^2 and -4z^2
+                    let sv = match s.choose(6) {
+                        0 => BigUint::one(),
+                        1 => q - 1u32,
+                        2 => BigUint::from(2u32),
+                        3 => BigUint::zero(),
+                        4 => BigUint::from(s.choose(17) as u32),
+                        _ => felt(&mut s, Md::Q).v,
+                    };
+                    let other = felt(&mut s, Md::Q).v;
+                    let other = if other.is_zero() { BigUint::one() } else { other };
+                    let inv2 = zp::inv_mod(&BigUint::from(2u32), q).unwrap();
+                    let inv4 = zp::mul_mod(&inv2, &inv2, q);
+                    let root = if s.bool() {
+                        // 2 y^2 = sv
+                        match zp::sqrt_mod_5mod8(&zp::mul_mod(&sv, &inv2, q), q) {
+                            Some(y) => (if s.bool() { y } else { zp::neg_mod(&y, q) }, other),
+                            None => (other.clone(), other),
+                        }
+                    } else {
+                        // -4 z^2 = sv
+                        match zp::sqrt_mod_5mod8(&zp::mul_mod(&zp::neg_mod(&sv, q), &inv4, q), q) {
+                            Some(z) => (other, if s.bool() { z } else { zp::neg_mod(&z, q) }),
+                            None => (other.clone(), other),
+                        }
+                    };
+                    (m_mul(&root, &root), "fq2:square-derived-root".into())
+                }
                 0 => {
                     let a = fq2_operand(&mut s, &mut info, "root");
                     (m_mul(&a, &a), "fq2:square".into())
